@@ -158,7 +158,16 @@ impl<'a> Encoder<'a> {
     fn content(&mut self, owner: &CaSpec, bytes: &[u8]) -> String {
         let scn: &'a Scenario = self.scn;
         let world = &scn.world;
-        let meaning = self.index.get(&sha256(bytes)).cloned().unwrap_or(Meaning::Junk);
+        let mut meaning = self.index.get(&sha256(bytes)).cloned().unwrap_or(Meaning::Junk);
+        // BER (non-DER) framing: certificates and CRLs are always decoded as
+        // DER; signed objects only when the run is strict.
+        if crate::build::is_ber_framed(bytes) {
+            let signed = matches!(
+                &meaning,
+                Meaning::Obj { obj, .. } if matches!(obj.kind, ObjKind::Roa { .. } | ObjKind::Aspa { .. } | ObjKind::Gbr)
+            );
+            if !signed || scn.opts.strict { meaning = Meaning::Junk }
+        }
         match meaning {
             Meaning::Crl { ca, crl } => {
                 let issuer = world.ca(&ca).expect("CA");
@@ -238,6 +247,10 @@ impl<'a> Encoder<'a> {
         let Meaning::Mft { ca, version, entries } = meaning else {
             return format!("( {id} )")
         };
+        if self.scn.opts.strict && crate::build::is_ber_framed(bytes) {
+            // `Manifest::decode(.., strict = true)` insists on DER.
+            return format!("( {id} )")
+        }
         let scn: &'a Scenario = self.scn;
         let issuer = scn.world.ca(&ca).expect("CA");
         let ok = issuer.key == owner.key
